@@ -125,10 +125,11 @@ def order_tables(ctx, units, prefixes, prelude, rnd):
             if not (isinstance(a[2], tuple) and isinstance(b[2], tuple)) or a[2][2] != b[2][2] or a[2][1] == b[2][1]:
                 return False
             ua, ub = byname[a[2][1]], byname[b[2][1]]
-            return model.key(ua.dim) == model.key(ub.dim) and model.key(ua.mag) == model.key(ub.mag)
+            return model.key(ua.dim) == model.key(ub.dim) and model.key(ua.mag) == model.key(ub.mag) and ua.tiebreak == ub.tiebreak
         if a[2] and b[2]:
             ua, ub = byname[a[2]], byname[b[2]]
-            return a[2] != b[2] and model.key(ua.dim) == model.key(ub.dim) and model.key(ua.mag) == model.key(ub.mag) and ua.has_origin == ub.has_origin and not ua.has_origin
+            return (a[2] != b[2] and model.key(ua.dim) == model.key(ub.dim) and model.key(ua.mag) == model.key(ub.mag)
+                    and ua.has_origin == ub.has_origin and not ua.has_origin and ua.tiebreak == ub.tiebreak)
         return False
 
     coll = [(i, j) for i in range(N) for j in range(N) if i != j and collide(i, j)]
@@ -188,13 +189,21 @@ def order_tables(ctx, units, prefixes, prelude, rnd):
     stats["unit_pairs"] = check("ou", names if False else [c[0] for c in cand], "units", skip=set(coll))
     stats["unit_types"] = N
     stats["collision_pairs_excluded"] = len(coll) // 2
-    # the model's collision pairs really are rejected (documented limitation), everything else is not
+    # (pairs the model calls collisions are left out of the table - the documented limitation - but
+    #  nothing is demanded of them: a library that learns to order them is not wrong)
     items = []
-    for (i, j) in coll[:6]:
-        if i < j:
-            items.append(witness.Item("order:collision:%s|%s" % (cand[i][0], cand[j][0]),
-                                      "void w() { (void)au::InOrderFor<au::UnitProduct, %s, %s>::value; }" % (cand[i][0], cand[j][0]), "reject", None,
-                                      dict(desc="documented limitation: distinct units of identical dimension, magnitude and origin have no order")))
+    # no two NAMED LIBRARY units may be such a pair: the library ships both, so their products, sums
+    # and comparisons must compile (Hertz / Becquerel were one until the repair F-26)
+    groups = {}
+    for u in units:
+        if gid[u.name][1] > 1 and not u.has_origin:
+            groups.setdefault(gid[u.name][0], []).append(u.name)
+    for names_ in groups.values():
+        for x, y in itertools.combinations(sorted(names_), 2):
+            ctx.violation("order:library-collision:%s|%s" % (x, y),
+                          "the library units %s and %s have identical dimension, magnitude, origin and ordering tiebreaker: nothing orders them, so any "
+                          "expression that puts both into one pack (%s * %s, +, ==, <) is a hard error ('Broken strict total ordering')" % (x, y, x, y))
+    stats["library_units_checked_for_ties"] = len(units)
     return stats, items
 
 
